@@ -6,7 +6,7 @@ import vrt_runner, mu_common
 PID = "C01"
 PROP_V = ["Props/Properties_C01.v", "Props/Properties_C01w.v", "Props/Properties_C01p.v", "Props/Properties_C01x.v"]
 GEN_MODULES = ["Consts", "Sites"]
-FLOW_FILES = ['mu.c', 'mu_wait.c', 'cv.c']
+FLOW_FILES = ['mu.c', 'mu_wait.c', 'cv.c', 'wait.c']
 REPLAY_HINT = "VRT_SEED=<seed> [env] _work/h/<scenario>  (deterministic: same seed, same schedule); add VRT_TRACE=<file> for the step trace"
 PARTIAL = ["quantifier 'counting and binary semaphores': the models use an abstract COUNTING semaphore (a sound over-approximation of the binary one for exclusion: fewer posts are never needed for safety); the binary flavour is exercised by the scenario runs only",
            "Properties_C01p: Crash 2 (unlock/runlock sanity check) and Crash 3 (MU_CONDITION seen by unlock_slow) are unreachable for ANY programs "
